@@ -54,23 +54,23 @@ PROPS = {
     'C09': dict(jobs=[('sim', 'batch', .7), ('cluster_ops', '-', .3)], quick_n=4000,
                 rule='batch run with >=2 reservations, or op sequence with a foreign/own-reservation allocation',
                 nontrivial=lambda o: o['probes'].get('reservation', 0) >= 2 or o['probes'].get('alloc_own') or o['faults'].get('F8:refused_foreign')),
-    'C10': dict(jobs=[('repro', 'repro', 1.0)], quick_n=130, workers=10,
+    'C10': dict(jobs=[('repro', 'repro', 1.0)], quick_n=100, workers=10,
                 rule='completed scenario with a >=3-node workflow on a heterogeneous cluster, run 2x in-process and in 3 fresh interpreters with other PYTHONHASHSEED',
                 nontrivial=lambda o: o['probes'].get('hetero_wide_completed')),
-    'C11': dict(jobs=[('pause', 'real', 1.0)], quick_n=160,
+    'C11': dict(jobs=[('pause', 'real', 1.0)], quick_n=90,
                 rule='scenario whose pause points include one mid-ingest or mid-task',
                 nontrivial=lambda o: o['probes'].get('pause_mid_ingest') or o['probes'].get('pause_mid_task')),
     'C12': dict(jobs=[('sim', 'real', 1.0)], quick_n=1300,
                 rule='run with ingest overlapping workflow tasks (rows where several columns are non-zero) or staggered overlapping ingests',
                 nontrivial=lambda o: o['probes'].get('rows_checked', 0) >= 4 and (o['probes'].get('ingest_overlaps_workflow')
                                                                                   or o['probes'].get('staggered_overlapping_ingest'))),
-    'C13': dict(jobs=[('sim', 'real', .8), ('pause', 'real', .2)], quick_n=1000,
+    'C13': dict(jobs=[('sim', 'real', .93), ('pause', 'real', .07)], quick_n=600,
                 rule='completed run where >=1 full causal chain was checked',
                 nontrivial=lambda o: o['probes'].get('causal_chains_checked') or o['probes'].get('pause_points')),
     'C14': dict(jobs=[('sim', 'general', 1.0)], quick_n=3000,
                 rule='plan with >=4 nodes and a join (node with >=2 predecessors)',
                 nontrivial=lambda o: o['probes'].get('plan_with_join')),
-    'C15': dict(jobs=[('delaymodel', '-', .5), ('sim', 'delay', .5)], quick_n=4000,
+    'C15': dict(jobs=[('delaymodel', '-', .6), ('sim', 'delay', .4)], quick_n=2500,
                 rule='delay-model case where a draw fired, or a simulation in which a task was actually delayed',
                 nontrivial=lambda o: o['probes'].get('draws_fired') or o['probes'].get('delayed_task')),
     'C16': dict(jobs=[('units', 'units', 1.0)], quick_n=1500,
